@@ -334,3 +334,85 @@ func VerifLeafRoundTrip() (cases int, bad []string) {
 	}
 	return
 }
+
+// ---- hashes (C16) ----------------------------------------------------------
+
+func VerifFnv(data []byte) uint32    { return fnv1a(data) }
+func VerifMurmur(data []byte) uint32 { return murmur(data) }
+func VerifCRC(parts ...[]byte) uint32 {
+	h := newCrc32()
+	for _, p := range parts {
+		if len(p) > 0 {
+			h.write(p)
+		}
+	}
+	return h.get()
+}
+
+// ---- data files (C09) ---------------------------------------------------------
+
+type VerifRec struct {
+	Off  uint32
+	Key  string
+	Body []byte
+	Flag uint32
+	Ver  int32
+	TS   uint32
+	Size uint32
+}
+
+// VerifWriteDataFile writes the records with the repository's own stream writer.
+func VerifWriteDataFile(path string, recs []VerifRec) error {
+	w, err := GetStreamWriter(path, false)
+	if err != nil {
+		return err
+	}
+	for _, r := range recs {
+		p := &Payload{}
+		p.Flag, p.Ver, p.TS = r.Flag, r.Ver, r.TS
+		p.Body = r.Body
+		if _, err := w.Append(&Record{[]byte(r.Key), p}); err != nil {
+			return err
+		}
+	}
+	return w.Close()
+}
+
+// VerifReadAt is the positional read.
+func VerifReadAt(path string, off uint32) (*VerifRec, error) {
+	wrec, err := readRecordAtPath(path, off)
+	if err != nil {
+		return nil, err
+	}
+	p := wrec.rec.Payload
+	out := &VerifRec{Off: off, Key: string(wrec.rec.Key), Body: append([]byte(nil), p.Body...), Flag: p.Flag, Ver: p.Ver, TS: p.TS}
+	cmem.DBRL.GetData.SubSizeAndCount(p.CArray.Cap)
+	p.CArray.Free()
+	return out, nil
+}
+
+// VerifScan is the sequential scan (as used by GC and hint rebuild).
+func VerifScan(path string) (recs []VerifRec, broken uint32, err error) {
+	r, err := newDataStreamReader(path, Conf.BufIOCap)
+	if err != nil {
+		return nil, 0, err
+	}
+	defer r.Close()
+	for n := 0; n < 100000; n++ {
+		rec, off, sb, e := r.Next()
+		broken += sb
+		if e != nil {
+			return recs, broken, e
+		}
+		if rec == nil {
+			return recs, broken, nil
+		}
+		p := rec.Payload
+		recs = append(recs, VerifRec{Off: off, Key: string(rec.Key), Body: append([]byte(nil), p.Body...), Flag: p.Flag, Ver: p.Ver, TS: p.TS, Size: p.RecSize})
+		if p.CArray.Addr != 0 {
+			cmem.DBRL.GetData.SubSizeAndCount(p.CArray.Cap)
+			p.CArray.Free()
+		}
+	}
+	return recs, broken, fmt.Errorf("scan did not terminate")
+}
